@@ -45,8 +45,14 @@ template <class G> void run_c02(vf::Report& R) {
     ref::Mat Mx = vf::Mof(X);
     ref::Real lin = std::max(a.lin, g.lin_scale_M(E));
     ref::Real d = g.diffM(Mx, E, lin);
-    if (!R.judge("exp_is_expm", d, B::B2, a.key))
-      R.fail("exp_is_expm", "exp/" + a.key, d, B::B2,
+    // bar: B2 (1e-8 / 3e-4) is what SGal3 needs near its switch-overs (measured worst 2e-10 / 5e-6); every other group is
+    // cancellation-free and measured at 4e-15 / 5e-6, so it is judged at B1 (1e-12 / 1e-4) — seed C02d (an accuracy loss
+    // from 1e-15 to 1.6e-10 in SE2) showed that one bar for all groups hides a five-decade regression
+    bool has_sgal3 = false;
+    for (size_t bb = 0; bb < g.blocks.size(); ++bb) if (g.blocks[bb].kind == ref::SGAL3) has_sgal3 = true;
+    const ref::Real bar_exp = has_sgal3 ? (ref::Real)B::B2 : (ref::Real)B::B1;
+    if (!R.judge("exp_is_expm", d, bar_exp, a.key))
+      R.fail("exp_is_expm", "exp/" + a.key, d, bar_exp,
              detail + "," + vf::kv("coeffs", vf::decvec(X.coeffs())) + "," + vf::kv("M_manif", vf::decmat(Mx)) + "," +
                  vf::kv("M_ref", vf::decmat(E)) + "," + vf::kv("scale", vf::jnum(lin)) + "}");
     // 3. result is a valid element (B5)
